@@ -54,6 +54,10 @@ const (
 
 // Expand expands a word into multiple fields.
 func (env *ExecEnv) Expand(word ast.Word, mode ExpMode) ([]string, error) {
+	if mode&Quote != 0 && mode&(Literal|Pattern) == 0 && len(env.Args) < 2 && onlyAt(word) {
+		// "$@" without positional parameters generates no field at all
+		return nil, nil
+	}
 	fields, err := env.expand(word, mode)
 	if err != nil {
 		return nil, err
